@@ -208,3 +208,109 @@ createPeaks = FunctionSpec(
          "element-wise arithmetic as assumed library contracts)")
 
 SPECS += [createPeaks]
+
+
+# ------------------------------------------------------------------ seeding bookkeeping (C06): getSequence, CorrelationResult.create, InitialAlignment.refine
+# The numerics (FFT correlation, scipy find_peaks) are assumed library contracts that say nothing about values; what is verified is the
+# coordinate bookkeeping around them: which window is vectorised, from which origin bins are counted, and that peaks are converted back with the same origin.
+GEN = OBJ('SequenceGenerator')
+CORR = OBJ('CorrelationResult')
+from specs.vectorise import _requires as _vec_requires
+
+
+def _gseq_requires(C):
+    class _P:       # the positions list seen as the `positions` parameter of positionsToSequence
+        positions = C.self.positions
+    return _vec_requires(_P) + [('resolution_positive', C.sequenceGenerator.resolution >= 1), ('radius_nonnegative', C.sequenceGenerator.blurRadius >= 0)]
+
+
+def _gseq_ensures(C, res):
+    cl = []
+    if C.proving and C.has('F') and C.F.has('sequence'):
+        seq = C.F.sequence
+        k = z3.Int('gsk')
+        cl = [('same_bins_read_backwards_on_the_reverse_strand', z3.And(res.len == seq.len, z3.ForAll([k], z3.Implies(rng(0, k, seq.len), res[k] == z3.If(
+            C.reverseStrand, seq[seq.len - 1 - k], seq[k])))))]
+    b = z3.Int('gsb')
+    body = z3.Implies(rng(0, b, res.len), z3.Or(res[b] == 0, res[b] == 1))
+    return cl + [('bits', z3.ForAll([b], body) if C.proving else z3.ForAll([b], body, patterns=[res[b]]))]
+
+
+getSequence = FunctionSpec(
+    file='src/correlation/optical_map.py', qualname='OpticalMap.getSequence',
+    params=dict(self=OMAP, sequenceGenerator=GEN, reverseStrand=BOOL, start=REAL, end=OPT(REAL)), returns=LIST(INT),
+    requires=_gseq_requires, ensures=_gseq_ensures, serves=('C06', 'C11'),
+    note="the blurred bit vector of the molecule's labels, bins counted from `start` (positionsToSequence, under contract), read backwards on the reverse strand")
+
+
+def _cc_ensures(C, res):
+    k = z3.Int('cck')
+    P = res.peaks
+    return [('maps_strand_resolution_and_window_origin_are_stored_as_given', z3.And(
+                res.query.ref == C.query.ref, res.reference.ref == C.reference.ref, res.reverseStrand == C.reverseStrand, res.resolution == C.resolution,
+                res.blur == C.blur, res.correlationStart == C.correlationStart)),
+            ('every_peak_lies_at_the_centre_of_a_bin_counted_from_the_window_origin', z3.ForAll([k], z3.Implies(z3.And(P.off <= k, k < P.off + P.len), z3.Exists(
+                [z3.Int('ccb')], z3.And(0 <= z3.Int('ccb'), z3.Int('ccb') < C.correlation.len,
+                                        Abs(P)[k].position == _centre(z3.ToReal(z3.Int('ccb')), C.resolution, C.correlationStart)))),
+                **({} if C.proving else dict(patterns=[z3.Select(P.v.arrs[0], k)]))))]
+
+
+from specs.common import Abs
+corr_create = FunctionSpec(
+    file='src/correlation/optical_map.py', qualname='CorrelationResult.create',
+    params=dict(correlation=LIST(REAL), query=OMAP, reference=OMAP, peakPositions=LIST(INT), peakProperties=PROPS, peaksCount=INT, reverseStrand=BOOL,
+                resolution=INT, blur=INT, correlationStart=REAL, correlationEnd=OPT(REAL), peakHeightThreshold=OPT(REAL)), returns=CORR,
+    requires=lambda C: _cp_requires(C) + [('peak_positions_are_bins_of_the_correlation', forall(z3.Int('k'), z3.Implies(
+        rng(0, z3.Int('k'), C.peakPositions.len), z3.And(0 <= C.peakPositions[z3.Int('k')], C.peakPositions[z3.Int('k')] < C.correlation.len)),
+        [C.peakPositions[z3.Int('k')]]))],
+    ensures=_cc_ensures, serves=('C06',),
+    note="the refined correlation result: maps, strand, resolution and window origin stored as given; every peak sits at the centre of one of the correlation's "
+         "bins, counted from the window origin (createPeaks, under contract)")
+
+
+def _refine_log_ref(L):
+    L.set('g_start', L._e.num(L.callargs[2]))
+    L.set('g_end', L._e.num(L.callargs[3]))
+
+
+def _refine_log_create(L):
+    L.set('g_origin', L._e.num(L.callargs[9]))
+    L.set('g_res', L._e.num(L.callargs[7]))
+
+
+def _refine_requires(C):
+    class _Q:
+        positions = C.self.query.positions
+    class _R:
+        positions = C.self.reference.positions
+    return [(n + '_of_the_query', t) for n, t in _vec_requires(_Q)] + [(n + '_of_the_reference', t) for n, t in _vec_requires(_R)] + \
+        [('resolution_positive', C.sequenceGenerator.resolution >= 1), ('radius_nonnegative', C.sequenceGenerator.blurRadius >= 0)]
+
+
+def _refine_ensures(C, res):
+    me = C.self
+    gen = C.sequenceGenerator
+    cl = [('result_is_about_the_same_maps_and_strand', z3.And(res.query.ref == me.query.ref, res.reference.ref == me.reference.ref,
+                                                             res.reverseStrand == me.reverseStrand, res.resolution == gen.resolution)),
+          ('window_origin_is_the_seed_minus_the_margin', res.correlationStart == C.peakPosition - C.secondaryMargin)]
+    if C.proving:
+        F_ = C.F
+        cl += [('reference_is_vectorised_from_the_window_origin_to_one_query_length_plus_margin_after_the_seed', z3.And(
+                    F_.g_start == C.peakPosition - C.secondaryMargin, F_.g_end == C.peakPosition + me.query.length + C.secondaryMargin)),
+               ('peaks_are_converted_with_the_origin_and_resolution_the_reference_was_vectorised_with', z3.And(
+                   F_.g_origin == F_.g_start, F_.g_res == gen.resolution))]
+    return cl
+
+
+refine = FunctionSpec(
+    file='src/correlation/optical_map.py', qualname='InitialAlignment.refine',
+    params=dict(self=OBJ('InitialAlignment'), peakPosition=REAL, sequenceGenerator=GEN, secondaryMargin=REAL, peakHeightThreshold=REAL), returns=CORR,
+    requires=_refine_requires, ensures=_refine_ensures,
+    ghost={'g_start': lambda C: z3.RealVal(0), 'g_end': lambda C: z3.RealVal(0), 'g_origin': lambda C: z3.RealVal(0), 'g_res': lambda C: z3.IntVal(0)},
+    ghost_at={'call:getSequence#1': _refine_log_ref, 'call:create#0': _refine_log_create},
+    inline={'InitialAlignment.__getCorrelation'}, serves=('C06',),
+    note="the refinement window: the reference is vectorised from seed - margin to seed + query length + margin, and the secondary peaks are converted back to "
+         "base pairs with the SAME origin and resolution (so a peak is the bin-centre coordinate of its bin in the window); maps and strand are passed on. The "
+         "correlation and peak finding themselves are assumed library contracts without values")
+
+SPECS += [getSequence, corr_create, refine]
